@@ -95,7 +95,81 @@ def _frame(ty, layer_bytes):
     return eth + struct.pack(">H", 0x0800) + ip + layer_bytes
 
 
+def _lit(kind, raw):
+    """p2sh source text for an operand of kind 0=int 1=float 2=byte from its little-endian bytes."""
+    import math
+    if kind == 0:
+        v = struct.unpack("<q", raw)[0]
+        return "(-9223372036854775807 - 1)" if v == -(1 << 63) else (f"({v})" if v < 0 else str(v))
+    if kind == 1:
+        v = struct.unpack("<d", raw)[0]
+        if math.isnan(v) or math.isinf(v):
+            return None
+        t = repr(v)
+        if "e" in t or "E" in t:
+            t = format(v, ".400f").rstrip("0")
+            t = t + "0" if t.endswith(".") else t
+            if len(t) > 420:
+                return None
+        return f"({t})" if v < 0 or t.startswith("-") else t
+    return f"byte({raw[0]})"
+
+
+def e2e_ops(prop, h, test):
+    """Operator counterexample as a one-line p2sh program run through the real binary."""
+    m = re.match(r"(arith|bitwise|neg|relational)\(([\d, a-z]+)\)", h.call)
+    if not m:
+        return None
+    args = [x.strip() for x in m.group(2).split(",")]
+    raw = bytes.fromhex(test["bytes"])
+    size = {0: 8, 1: 8, 2: 1}
+    try:
+        if m.group(1) == "arith":
+            op, ka, kb = int(args[0]), int(args[1]), int(args[2])
+            a, b = _lit(ka, raw[:size[ka]]), _lit(kb, raw[size[ka]:size[ka] + size[kb]])
+            expr = f"{a} {['+', '-', '*', '/', '%'][op]} {b}"
+        elif m.group(1) == "bitwise":
+            a, b = _lit(0, raw[:8]), _lit(0, raw[8:16])
+            expr = f"{a} {['&', '|', '^', '<<', '>>'][int(args[0])]} {b}"
+        elif m.group(1) == "neg":
+            a, b = _lit(int(args[0]), raw[:8]), ""
+            expr = f"-{a}"
+        else:
+            ka, kb = int(args[0]), int(args[1])
+            a, b = _lit(ka, raw[:8]), _lit(kb, raw[8:16])
+            expr = f'{a} > {b}, {a} >= {b}, {a} < {b}, {a} <= {b}, {a} == {b}'
+        if a is None or b is None:
+            return {"end_to_end": {"note": "operand is NaN or infinite: no literal form, not rendered"}}
+        if m.group(1) == "relational":
+            prog = 'println("{} {} {} {} {}", ' + expr + ');'
+        else:
+            prog = 'println("{}", ' + expr + ');'
+        env = dict(os.environ, CARGO_NET_OFFLINE="true", RUSTFLAGS="--cfg p2sh_verif")
+        tdir = os.path.join(VERIF, ".build", "native")
+        res = {}
+        for prof in ("debug", "release"):
+            cmd = ["cargo", "build", "--offline", "--target-dir", tdir] + (["--release"] if prof == "release" else [])
+            b_ = subprocess.run(cmd, cwd=os.path.join(VERIF, "kani"), env=env, stdout=subprocess.PIPE, stderr=subprocess.STDOUT, text=True, timeout=1800)
+            binp = os.path.join(tdir, prof, "p2sh")
+            if b_.returncode != 0 or not os.path.exists(binp):
+                res[prof] = "build failed"
+                continue
+            r = subprocess.run([binp, "-c", prog], stdout=subprocess.PIPE, stderr=subprocess.STDOUT, text=True, timeout=60)
+            res[prof] = {"exit_status": r.returncode, "panicked": "panicked" in r.stdout, "output": r.stdout[-600:]}
+        return {"end_to_end": {"note": "informational: the operands as a p2sh one-liner through the real binary (both profiles)",
+                               "program": prog, "result": res}}
+    except Exception as e:
+        return {"end_to_end": {"error": str(e)}}
+
+
 def e2e(prop, h, test, verdicts):
+    r = e2e_ops(prop, h, test)
+    if r is not None:
+        return r
+    return e2e_layers(prop, h, test, verdicts)
+
+
+def e2e_layers(prop, h, test, verdicts):
     """Render a dec/ser/payoff counterexample as a one-record pcap + p2sh script, run the real binary
     (the harness package's own build of /repo's sources) and record what it prints / writes."""
     try:
